@@ -23,6 +23,15 @@ def gen_bad(rng, npids, ncont, nformats):
     unknown = {"pid": npids}  # index of the extra never-bound pid
     pid = {"pid": rng.randrange(npids)}
     data = {"data": rng.randrange(ncont), "kind": rng.choice(["str", "path"])}
+    if rng.random() < 0.08:
+        # store_object WITHOUT pid but with other (bad) arguments: the interface does not say whether they are
+        # ignored or checked, so either outcome is accepted -- but a call that raises must change nothing
+        c = rng.randrange(ncont)
+        args = [_lit(None), {"data": c, "kind": "str"}, _lit(rng.choice([None, "sm3", "sha224"])),
+                rng.choice([_lit(None), {"checksum": c}, _lit("ab cd"), _lit("")]),
+                _lit(rng.choice([None, "sha256", "md4", " ", ""])), _lit(rng.choice([None, 0, -1, "12", 5]))]
+        return {"op": "raw", "method": "store_object", "args": args, "expect": [], "conditional": True,
+                "stores_content": c, "bad": []}
     method = rng.choice(["store_object", "store_object", "store_object", "tag_object", "delete_if_invalid_object",
                          "store_metadata", "retrieve_object", "retrieve_metadata", "delete_object",
                          "delete_metadata", "get_hex_digest"])
